@@ -7,11 +7,18 @@ from pytezos.logging import logger
 line_size = 100
 
 
+# NOTE: only years 1000..9999 have an RFC3339 notation that is rendered and parsed back unambiguously
+MIN_RFC3339_TIMESTAMP = -30610224000  # 1000-01-01T00:00:00Z
+MAX_RFC3339_TIMESTAMP = 253402300799  # 9999-12-31T23:59:59Z
+
+
 def format_timestamp(timestamp: int) -> str:
-    """Format unix timestamp.
+    """Format unix timestamp (RFC3339 notation if the year is within 1000..9999, decimal integer otherwise).
 
     :param timestamp: Unix timestamp (seconds)
     """
+    if not MIN_RFC3339_TIMESTAMP <= timestamp <= MAX_RFC3339_TIMESTAMP:
+        return str(timestamp)
     dt = datetime.fromtimestamp(timestamp, timezone.utc)
     return dt.strftime('%Y-%m-%dT%H:%M:%SZ')
 
